@@ -3,7 +3,7 @@
    The signature table is a JSON array of [public key text, server, key id] triples for which
    VerifyJSON succeeds on the invite's signed object (computed by the harness with real keys);
    it instantiates the sig_ok oracle of Auth/Abs.v. *)
-From Verif Require Import Lib.Bytes Json.Ast Json.Parse Auth.Types Auth.Versions Auth.Abs Auth.Decide Auth.Model.
+From Verif Require Import Lib.Bytes Json.Ast Json.Parse Auth.Types Auth.Versions Auth.Abs Auth.Decide Auth.Model Auth.AllowedSpec.
 Open Scope N_scope.
 
 Definition sig_table (j : json) : list (bytes * bytes * bytes) :=
@@ -33,5 +33,34 @@ Definition with_case {A} (args : list bytes)
 Definition run_allowed (args : list bytes) : bytes :=
   with_case args (fun so ver e al => verdict_bytes (allowed_model so ver e al)) (bs "badargs").
 
+Fixpoint split_last_arg (l : list bytes) : option (list bytes * bytes) :=
+  match l with
+  | [] => None
+  | [x] => Some ([], x)
+  | x :: r => match split_last_arg r with Some (a, b) => Some (x :: a, b) | None => None end
+  end.
+
+(* specification oracle: decide_spec on the abstract record against the implementation's verdict
+   [version; signature table; event; auth event ...; verdict] *)
+Definition prop_allowed (args : list bytes) : bytes :=
+  match split_last_arg args with
+  | None => bs "badargs"
+  | Some (args', impl) =>
+      with_case args'
+        (fun so ver e al =>
+           match flags_of_version ver, spec_rules_of ver with
+           | Some f, Some sv =>
+               let a := abs so f e al in
+               let want := decide_spec sv a in
+               let got := bytes_eqb impl (bs "ok") in
+               if negb (ai_provider_ok a) then bs "ok"   (* NewAuthEvents failed: Allowed was not reached *)
+               else if Bool.eqb want got then bs "ok"
+               else if want then bs "FAIL the rules accept, the library answered " ++ impl
+               else bs "FAIL the rules reject, the library answered " ++ impl
+           | _, _ => bs "FAIL unknown version"
+           end)
+        (bs "badargs")
+  end.
+
 Definition ops_C07 : list (bytes * (list bytes -> bytes)) :=
-  [ (bs "C07.allowed", run_allowed) ].
+  [ (bs "C07.allowed", run_allowed); (bs "C07.prop.allowed", prop_allowed) ].
